@@ -12,7 +12,7 @@ from . import common
 ID = "C03"
 NEEDS_MODEL = True
 LEVEL = "exploration"
-N = {"quick": 560, "thorough": 12000}
+N = {"quick": 960, "thorough": 12000}
 ACCEL = ["sigma", "extensor", "outerspace", "demo", "gamma"]
 PINNED = {
     "dyn_part": """
@@ -69,7 +69,7 @@ mapping:
 
 
 def classify(spec, problems):
-    return kf.classify_name_error(spec, problems)
+    return kf.classify_plain(spec, problems)
 
 
 def fixed_corpus():
